@@ -551,6 +551,37 @@ theorem WF_append_singleton {d : PyDict κ ν} (h : WF eq d) {k : κ} (hc : cont
 
 end PyDict
 
+/-! ## lemmas: `set` -/
+namespace PySet
+variable {α : Type} {eq : α → α → Bool}
+
+theorem contains_add (hk : KeyEq eq) (s : PySet α) (y x : α) : contains eq (add eq s y) x = (contains eq s x || eq y x) := by
+  unfold add
+  cases hc : contains eq s y
+  · simp [contains, List.any_append]
+  · simp only [if_true]
+    cases hx : eq y x
+    · simp
+    · -- some z ∈ s equals y, and y equals x
+      simp only [Bool.or_true]
+      simp only [contains, List.any_eq_true] at hc ⊢
+      obtain ⟨z, hz, hzy⟩ := hc
+      exact ⟨z, hz, hk.trans _ _ _ hzy hx⟩
+
+/-- `x in set(l)` iff `x` equals an element of `l` -/
+theorem contains_ofList (hk : KeyEq eq) (l : List α) (x : α) : contains eq (ofList eq l) x = l.any (fun y => eq y x) := by
+  unfold ofList
+  have key : ∀ (s : PySet α), contains eq (l.foldl (add eq) s) x = (contains eq s x || l.any (fun y => eq y x)) := by
+    induction l with
+    | nil => intro s; simp
+    | cons y r ih =>
+      intro s
+      rw [List.foldl_cons, ih, contains_add hk, List.any_cons, Bool.or_assoc]
+  rw [key]
+  simp [contains]
+
+end PySet
+
 /-! ## lemmas: `for` loops
 
 The generated loops are `forIn` over a list with the mutable variables as state.  These lemmas turn a loop whose body
